@@ -4,6 +4,8 @@ From Virel Require Import Lib.Config Lib.U64 Lib.AMap Model.Emission Model.Ledge
   Proofs.Conservation Proofs.Pointwise Proofs.Emission Proofs.Refine Proofs.Refine2 Proofs.Refine2W Proofs.Refine3 Proofs.Refine4
   Proofs.StakedSum Proofs.NodeBasics
   Gen.Params.
+From Virel Require Import Spec.Chain Proofs.ForkChoice Proofs.ChainInv Proofs.Undo Proofs.Undo2 Proofs.Replay1 Proofs.Replay2 Proofs.Replay3 Proofs.Replay4
+  Proofs.Replay5 Proofs.BranchRefuted Proofs.NonceOnce Proofs.NonceOnceNode Proofs.StorePaths Proofs.NonceOnceEx.
 Open Scope N_scope.
 
 (* FULL STATEMENT: for every kind, whenever the code applies a stateless-valid transaction, the rules accept it and
@@ -257,3 +259,138 @@ Theorem C02_rejected_unchanged : forall cfg genesis_addr team_key n b now n' c a
   deliver cfg genesis_addr team_key n b now = (n', Rejected c, amb) -> n' = n.
 Proof. exact deliver_rejected_unchanged. Qed.
 Print Assumptions C02_rejected_unchanged.
+
+(* ================================================================================================================ *)
+(* "EACH TRANSACTION CHANGES THE LEDGER EXACTLY ONCE", the at-most-once half as theorems about chains and nodes
+   (Proofs/NonceOnce.v, NonceOnceNode.v).  ApplyTxToState accepts a transaction only with the signer's next nonce
+   (C02_next_nonce) and advances that nonce by one; credits, debits, staking operations and coinbases keep every nonce.
+     nonce_at l a        = nonce (acct_at l a);
+     signed_by k t       = (tx_signer t =? k);   sig_at a t = (addr_of_key (tx_signer t) =? a);
+     chain_txs bs        = the transactions of the blocks of bs in chain order (flat_map lb_txs bs);
+     nonce_seq x n       = [x+1; x+2; ...; x+n],  nonce_after x n = x+n, both in uint64 arithmetic (wadd), as the code
+                           computes them;
+     tx_key t            = (tx_signer t, tx_nonce t).
+   No hypothesis besides "the chain applies": any ledger, any blocks. *)
+Theorem C02_chain_nonces_consecutive : forall cfg genesis_addr bs l l',
+  apply_chain cfg genesis_addr l bs = Ok l' ->
+  forall k, let mine := filter (signed_by k) (chain_txs bs) in
+            let x := nonce_at l (addr_of_key k) in
+    map tx_nonce mine = nonce_seq x (length mine) /\ nonce_at l' (addr_of_key k) = nonce_after x (length mine).
+Proof. exact chain_nonces_consecutive. Qed.
+Print Assumptions C02_chain_nonces_consecutive.
+
+(* every address (also the even ones, which belong to no key): its nonce moves only with transactions signed by its key *)
+Theorem C02_chain_nonce_by_address : forall cfg genesis_addr bs l l',
+  apply_chain cfg genesis_addr l bs = Ok l' ->
+  forall a, nonce_at l' a = nonce_after (nonce_at l a) (length (filter (sig_at a) (chain_txs bs))).
+Proof. exact chain_nonce_by_address. Qed.
+Print Assumptions C02_chain_nonce_by_address.
+
+(* as long as the signer's nonce does not pass 2^64: the nonces are x+1, ..., x+n as numbers, pairwise distinct, and the
+   signer's nonce after the chain is x + the number of its transactions *)
+Theorem C02_chain_nonces_exact : forall cfg genesis_addr bs l l',
+  apply_chain cfg genesis_addr l bs = Ok l' ->
+  forall k, let mine := filter (signed_by k) (chain_txs bs) in
+            let x := nonce_at l (addr_of_key k) in
+    x + N.of_nat (length mine) < two64 ->
+    map tx_nonce mine = map (fun i => x + N.of_nat i) (seq 1 (length mine)) /\
+    nonce_at l' (addr_of_key k) = x + N.of_nat (length mine) /\
+    NoDup (map tx_nonce mine).
+Proof. exact chain_nonces_exact. Qed.
+Print Assumptions C02_chain_nonces_exact.
+
+(* AT MOST ONCE: along a chain that applies, no two transaction occurrences share (signer, nonce).  The hypothesis
+   excludes only the wrap-around of a uint64 nonce (2^64 transactions of one signer), where the code itself would accept
+   the nonce 1 again (wadd in the check 362 of apply_tx: the model follows the code). *)
+Theorem C02_chain_at_most_once : forall cfg genesis_addr bs l l',
+  apply_chain cfg genesis_addr l bs = Ok l' ->
+  (forall k, nonce_at l (addr_of_key k) + N.of_nat (length (filter (signed_by k) (chain_txs bs))) < two64) ->
+  NoDup (map tx_key (chain_txs bs)).
+Proof. exact chain_at_most_once. Qed.
+Print Assumptions C02_chain_at_most_once.
+
+(* the same, position by position *)
+Theorem C02_chain_no_replay : forall cfg genesis_addr bs l l',
+  apply_chain cfg genesis_addr l bs = Ok l' ->
+  (forall k, nonce_at l (addr_of_key k) + N.of_nat (length (filter (signed_by k) (chain_txs bs))) < two64) ->
+  forall i j t t', nth_error (chain_txs bs) i = Some t -> nth_error (chain_txs bs) j = Some t' ->
+    tx_signer t = tx_signer t' -> tx_nonce t = tx_nonce t' -> i = j.
+Proof. exact chain_no_replay. Qed.
+Print Assumptions C02_chain_no_replay.
+
+(* THE NODE: on the main chain of every reachable node (premises of C03_ledger_is_replay, Props/C03.v; the premise
+   "counters cannot wrap along a chain of stored blocks" is what excludes the nonce wrap-around), genesis block included:
+   no two transaction occurrences share (signer, nonce); each signer's transactions carry the nonces 1, 2, 3, ... in chain
+   order; the nonce the node's ledger holds for a signer is the number of its transactions on the main chain - whatever
+   blocks of other branches were connected and disconnected on the way; and every address's nonce is the number of main
+   chain transactions signed with its key (0 for addresses of no key). *)
+Theorem C02_reachable_at_most_once : forall cfg genesis_addr team_key g n0 ops,
+  cfg_ok_emission cfg = true -> cfg_ok_feepos cfg = true ->
+  node0 cfg genesis_addr g = Ok n0 -> b_height g = 0 -> b_cd g = b_diff g ->
+  N.of_nat (length ops) < two64 - 1 ->
+  let n := run cfg genesis_addr team_key n0 ops in
+  Forall (tx_c cfg) (b_txs g) ->
+  (forall h b, get_block n h = Some b -> Forall (fun t => wf_tx cfg t /\ ver_ok t = true) (b_txs b)) ->
+  (forall bs, up (b_hash g) (blocks n) (b_hash g) bs ->
+     NoDup (bkeys g ++ flat_map bkeys bs) /\ c0 g + bnouts bs < two64 /\ c0 g + bntx bs < two64) ->
+  let txs := flat_map b_txs (g :: mchain n) in
+  NoDup (map tx_key txs) /\
+  NoDup (map tx_key (chain_txs (lbs n (mchain n)))) /\
+  (forall k, let mine := filter (signed_by k) txs in
+     map tx_nonce mine = map N.of_nat (seq 1 (length mine)) /\
+     nonce (acct_at (ldg n) (addr_of_key k)) = N.of_nat (length mine)) /\
+  (forall a, nonce (acct_at (ldg n) a) = N.of_nat (length (filter (sig_at a) txs))).
+Proof. exact reachable_at_most_once. Qed.
+Print Assumptions C02_reachable_at_most_once.
+
+(* the premise on the chains of stored blocks follows from a condition on the store as a whole: hashes and transaction
+   ids of all stored blocks pairwise distinct, counters summed over all stored blocks below 2^64 (BInv: the store is a
+   tree rooted at genesis, an invariant of every reachable node: Props/C10.v) *)
+Theorem C02_paths_of_store : forall g bl,
+  BInv (b_hash g) bl -> nget bl (b_hash g) = Some g ->
+  let all := map snd bl in
+  NoDup (flat_map bkeys all) -> c0 g + bnouts all < two64 -> c0 g + bntx all < two64 ->
+  forall bs, up (b_hash g) bl (b_hash g) bs ->
+    NoDup (bkeys g ++ flat_map bkeys bs) /\ c0 g + bnouts bs < two64 /\ c0 g + bntx bs < two64.
+Proof. exact paths_of_store. Qed.
+Print Assumptions C02_paths_of_store.
+
+(* non-vacuity: the node of Proofs/BranchRefuted.v that follows G - A1 - A2 - S3 - S4 - S5 - S6; S3 carries three
+   transactions of key 3 (register pool 2, choose it, stake one coin).  Every premise holds *)
+Theorem C02_at_most_once_premises :
+  node0 cfg_verifnet 7 r_genesis = Ok r_node0 /\
+  let n := run cfg_verifnet 7 0 r_node0 nx_ops in
+  cfg_ok_emission cfg_verifnet = true /\ cfg_ok_feepos cfg_verifnet = true /\
+  b_height r_genesis = 0 /\ b_cd r_genesis = b_diff r_genesis /\ N.of_nat (length nx_ops) < two64 - 1 /\
+  Forall (tx_c cfg_verifnet) (b_txs r_genesis) /\
+  (forall h b, get_block n h = Some b -> Forall (fun t => wf_tx cfg_verifnet t /\ ver_ok t = true) (b_txs b)) /\
+  (forall bs, up (b_hash r_genesis) (blocks n) (b_hash r_genesis) bs ->
+     NoDup (bkeys r_genesis ++ flat_map bkeys bs) /\ c0 r_genesis + bnouts bs < two64 /\ c0 r_genesis + bntx bs < two64).
+Proof. exact at_most_once_premises. Qed.
+Print Assumptions C02_at_most_once_premises.
+
+(* ... and the conclusion on it: keys (3,1), (3,2), (3,3); the ledger holds nonce 3 for the address of key 3 *)
+Theorem C02_at_most_once_example :
+  let n := run cfg_verifnet 7 0 r_node0 nx_ops in
+  let txs := flat_map b_txs (r_genesis :: mchain n) in
+  map b_hash (mchain n) = [2; 3; 23; 24; 25; 26] /\
+  map tx_key txs = [(3, 1); (3, 2); (3, 3)] /\
+  NoDup (map tx_key txs) /\
+  NoDup (map tx_key (chain_txs (lbs n (mchain n)))) /\
+  (forall k, let mine := filter (signed_by k) txs in
+     map tx_nonce mine = map N.of_nat (seq 1 (length mine)) /\
+     nonce (acct_at (ldg n) (addr_of_key k)) = N.of_nat (length mine)) /\
+  (forall a, nonce (acct_at (ldg n) a) = N.of_nat (length (filter (sig_at a) txs))) /\
+  nonce (acct_at (ldg n) (addr_of_key 3)) = 3.
+Proof. exact at_most_once_example. Qed.
+Print Assumptions C02_at_most_once_example.
+
+(* the rule at work: the replay of that chain up to S3 leaves nonce 3; a further block that carries the stake
+   transaction (nonce 3) a second time does not apply (code 362, "wrong nonce") *)
+Theorem C02_replayed_tx_refused :
+  let n := run cfg_verifnet 7 0 r_node0 nx_ops in
+  (exists l, apply_chain cfg_verifnet 7 (ldg r_node0) (firstn 3 (lbs n (mchain n))) = Ok l /\
+             nonce (acct_at l (addr_of_key 3)) = 3) /\
+  apply_chain cfg_verifnet 7 (ldg r_node0) (firstn 3 (lbs n (mchain n)) ++ [nx_replayed]) = Err 362.
+Proof. exact replayed_tx_refused. Qed.
+Print Assumptions C02_replayed_tx_refused.
